@@ -1261,9 +1261,16 @@ class _Org(Flow):
         self.prog, self.f, self.nvar, self.opmap, self.cls, self.rho = prog, f, nvar, opmap, cls, rho
         self.unknown = []
 
+    asp_inlined = None  # _is_asp's single return expression with its parameter replaced by the node variable
+
     def on_test(self, e, st):
         if isinstance(e, ast.Call) and self.prog.resolve_in(e.func, self.f) == 'dawgie.pl.schedule._is_asp' and len(e.args) == 1 and isinstance(e.args[0], ast.Name) and e.args[0].id == self.nvar:
             return ((st,), ()) if self.rho['asp'] else ((), (st,))
+        if self.asp_inlined is not None and isinstance(e, ast.Compare) and len(e.ops) == 1 and isinstance(e.ops[0], (ast.Eq, ast.NotEq, ast.Is, ast.IsNot)):
+            sides = {norm(e.left), norm(e.comparators[0])}
+            if sides == self.asp_inlined:
+                v = self.rho['asp'] if isinstance(e.ops[0], (ast.Eq, ast.Is)) else not self.rho['asp']
+                return ((st,), ()) if v else ((), (st,))
         if isinstance(e, ast.Compare) and len(e.ops) == 1 and isinstance(e.ops[0], (ast.In, ast.NotIn)) and isinstance(e.left, ast.Constant) and e.left.value == '__all__':
             if self.cls(e.comparators[0]) == 'T':
                 v = self.rho['allmark']
@@ -1352,7 +1359,8 @@ def _organize_rule(ctx, rep, r):
         return
     ops = wsa.ops_in(prog, f)
     opmap = {id(o.node): o for o in ops}
-    rebinds = [o for o in ops if o.kind == 'que' and o.op == 'rebind']
+    rebinds = [_pipeline_op(f, o) for o in ops if o.kind == 'que' and o.op == 'rebind']
+    asp_fn = prog.funcs.get('dawgie.pl.schedule._is_asp')
     for loop in loops:
         key0 = f'{f.qname}:{norm(loop.iter)}'
         encl = []
@@ -1383,6 +1391,7 @@ def _organize_rule(ctx, rep, r):
         for asp, allmark in itertools.product((False, True), repeat=2):
             rho = {'asp': asp, 'allmark': allmark}
             fl = _Org(prog, f, nvar, opmap, cls, rho)
+            fl.asp_inlined = _single_expr_of(asp_fn, nvar)
             out = fl.block(loop.body, {frozenset()})
             finals = out.normal | out.cont | out.brk
             r.instance()
@@ -1434,6 +1443,61 @@ def _organize_rule(ctx, rep, r):
     if not rebinds and any(o.op in ('append', 'insert') for o in qops):
         okq, det = True, 'nodes are appended to the queue directly'
     r.check(okq, f'{f.qname}:queue-keeps-pending-nodes', where(f, rebinds[0].node if rebinds else None), det, f'a located node with pending targets does not end up in the work queue: {det}')
+
+
+def _single_expr_of(fn, argname):
+    """helper `def h(p): return <a == b>` -> {text of a, text of b} with p replaced by argname (for recognising its inlined form)"""
+    if fn is None or len(fn.params()) != 1:
+        return None
+    rets = [n for n in fn.own_nodes() if isinstance(n, ast.Return) and n.value is not None]
+    if len(rets) != 1 or not (isinstance(rets[0].value, ast.Compare) and len(rets[0].value.ops) == 1 and isinstance(rets[0].value.ops[0], (ast.Eq, ast.Is))):
+        return None
+    import copy
+
+    p = fn.params()[0]
+
+    class T(ast.NodeTransformer):
+        def visit_Name(self, node):
+            return ast.Name(id=argname, ctx=node.ctx) if node.id == p else node
+
+    v = T().visit(copy.deepcopy(rets[0].value))
+    return {norm(v.left), norm(v.comparators[0])}
+
+
+_PIPE_CALLS = ('filter', 'sorted', 'list', 'tuple', 'reversed')
+
+
+def _pipeline_op(f, op):
+    """the queue rebinding with single-assignment locals that hold a stage of the sequence pipeline (a comprehension, filter(...),
+    sorted(...)) substituted into it, so that `active = [...]; que = sorted(active, ...)` reads like the one-expression form"""
+    import copy
+
+    vals = {}
+    for n in f.own_nodes():
+        if isinstance(n, ast.Assign):
+            for t in n.targets:
+                if isinstance(t, ast.Name):
+                    vals.setdefault(t.id, []).append(n.value)
+        elif isinstance(n, (ast.AugAssign, ast.For, ast.comprehension)):
+            for x in ast.walk(n.target):
+                if isinstance(x, ast.Name):
+                    vals.setdefault(x.id, []).append(None)
+
+    def stage(v):
+        return isinstance(v, (ast.ListComp, ast.GeneratorExp, ast.SetComp)) or (isinstance(v, ast.Call) and isinstance(v.func, ast.Name) and v.func.id in _PIPE_CALLS)
+
+    def sub(e, depth=4):
+        class T(ast.NodeTransformer):
+            def visit_Name(self, node):
+                vs = vals.get(node.id)
+                if isinstance(node.ctx, ast.Load) and vs and len(vs) == 1 and vs[0] is not None and stage(vs[0]) and node.id not in f.params() and depth > 0:
+                    return sub(vs[0], depth - 1)
+                return node
+
+        return T().visit(copy.deepcopy(e))
+
+    v = ast.fix_missing_locations(ast.copy_location(sub(op.args[0]), op.args[0]))
+    return wsa.Op(op.func, op.node, op.kind, op.op, [v], op.owner)
 
 
 def _is_empty_coll(e):
@@ -2177,6 +2241,51 @@ def _translate_map(prog, r, rep):
     return mapping
 
 
+def _bound_args(fn, call):
+    """parameter name -> argument expression of `call` to `fn` (constant defaults filled in)"""
+    a = fn.node.args
+    names = [x.arg for x in a.posonlyargs + a.args]
+    defaults = dict(zip(names[len(names) - len(a.defaults):], a.defaults)) if a.defaults else {}
+    out = {}
+    for i, n in enumerate(names):
+        v = arg(call, i, n)
+        if v is None and isinstance(defaults.get(n), ast.Constant):
+            v = defaults[n]
+        out[n] = v
+    for x, d in zip(a.kwonlyargs, a.kw_defaults):
+        out[x.arg] = arg(call, None, x.arg) or (d if isinstance(d, ast.Constant) else None)
+    return out
+
+
+def _reply_constructions(prog, ex):
+    """[(call site in ex, {message.make parameter: expression in the context of ex})]: message.make(...) called directly or
+    returned by a helper of the same module (its parameters bound to the caller's arguments)"""
+    make = prog.func('dawgie.pl.message.make')
+    out = []
+    for c in sorted(ex.calls(), key=lambda n: (n.lineno, n.col_offset)):
+        sym = prog.callee(c, ex)
+        kf = prog.func_of(sym) if sym else None
+        if kf is make:
+            out.append((c, _bound_args(make, c)))
+        elif kf is not None and kf.module is ex.module and kf is not ex:
+            outer = _bound_args(kf, c)
+            hdefs = _Defs(kf)
+            for rt in kf.own_nodes():
+                if not (isinstance(rt, ast.Return) and rt.value is not None):
+                    continue
+                v = hdefs.canon(rt.value)
+                if not (isinstance(v, ast.Call) and prog.func_of(prog.resolve_in(v.func, kf) or '') is make):
+                    continue
+                inner = _bound_args(make, v)
+                kws = {}
+                for k, e in inner.items():
+                    if isinstance(e, ast.Name) and e.id in outer:
+                        e = outer[e.id]
+                    kws[k] = e
+                out.append((c, kws))
+    return out
+
+
 def _rule5(ctx, rep):
     prog = ctx.prog
     f = prog.func(RES)
@@ -2256,15 +2365,15 @@ def _rule5(ctx, rep):
             ex = prog.func(q)
             rep.analysed(ex)
             defs = _Defs(ex)
-            for c in calls_to(prog, ex, 'dawgie.pl.message.make'):
-                suc = arg(c, None, 'suc')
+            for c, kws in _reply_constructions(prog, ex):
+                suc = kws.get('suc')
                 if not (isinstance(suc, ast.Constant) and suc.value is True):
                     continue
-                if arg(c, None, 'jid') is None:
+                if kws.get('jid') is None:
                     continue
                 n_ex += 1
                 r.instance()
-                val = arg(c, None, 'val')
+                val = kws.get('val')
                 cv = defs.canon(val) if val is not None else None
                 ok = isinstance(cv, ast.Call) and isinstance(cv.func, ast.Attribute) and cv.func.attr == 'run'
                 r.check(ok, f'{q}:success-reply-values', where(ex, c), 'val=<context>.run(...)', f'the success reply of {q} does not carry the report returned by Context.run (val={norm(val) if val is not None else None})', nontrivial=False)
@@ -2338,6 +2447,8 @@ VARIANTS = [
     V('organize: only the first root searched', 'B', *_O, 'for t in dawgie.pl.schedule.ae.at:', 'for t in dawgie.pl.schedule.ae.at[:1]:', 'R-C02-2'),
     V('organize: node not entered into the queue source', 'B', *_O, 'jobs[n.tag] = n\n', 'pass\n', 'R-C02-2'),
     V('organize: queue keeps only executing nodes', 'B', *_O, "filter(lambda j: j.get('todo') or j.get('doing'), jobs.values())", "filter(lambda j: j.get('doing'), jobs.values())", 'R-C02-2'),
+    V('organize: local queue list keeps only executing nodes', 'B', *_O, "dawgie.pl.schedule.que = sorted(\n        filter(lambda j: j.get('todo') or j.get('doing'), jobs.values()),\n        key=lambda i: i.get('level'),\n    )", "active = [j for j in jobs.values() if j.get('doing')]\n    dawgie.pl.schedule.que = sorted(active, key=lambda i: i.get('level'))", 'R-C02-2'),
+    V('organize: aspect test inlined and inverted', 'B', *_O, 'if _is_asp(n):', "if n.get('factory').__name__ != dawgie.Factories.analysis.name:", 'R-C02-2'),
     # R-C02-3
     V('_priors without Regression', 'B', _S, '_priors', '    if isinstance(node, dawgie.Regression):\n        result = node.variables()\n', '', 'R-C02-3'),
     V('_priors Analyzer reads previous', 'B', _S, '_priors', 'result = node.traits()', 'result = node.previous()', 'R-C02-3'),
@@ -2379,6 +2490,8 @@ VARIANTS = [
     V('rename vns', 'N', *_U, 'vns', 'fresh', None, 'all'),
     V('selection extracted into a helper', 'N', _S, None, 'def update(values', "def _sel(node, names, out):\n    for vref in dawgie.util.as_vref(_priors(node.get('alg'))):\n        if dawgie.util.vref_as_name(vref) in names:\n            out.add(node.tag)\n            return\n\n\ndef update(values", None),
     V('organize: in-place union through an alias', 'N', *_O, "                else:\n                    n.get('todo').update(targets)", "else:\n                    todo = n.get('todo')\n                    todo |= set(targets)", None),
+    V('organize: queue built through a local list', 'N', *_O, "dawgie.pl.schedule.que = sorted(\n        filter(lambda j: j.get('todo') or j.get('doing'), jobs.values()),\n        key=lambda i: i.get('level'),\n    )", "active = [j for j in jobs.values() if j.get('todo') or j.get('doing')]\n    dawgie.pl.schedule.que = sorted(active, key=lambda i: i.get('level'))", None),
+    V('organize: aspect test inlined', 'N', *_O, 'if _is_asp(n):', "if n.get('factory').__name__ == dawgie.Factories.analysis.name:", None),
     V('organize: targets defaulted with or', 'N', *_O, 'targets = targets if targets else set()', 'targets = targets or set()', None),
     V('_priors with early returns', 'N', _S, '_priors', '    if isinstance(node, dawgie.Algorithm):\n        result = node.previous()', 'if isinstance(node, dawgie.Algorithm):\n        return node.previous()', None),
     V('as_vref with an explicit inner loop', 'N', _RF, 'as_vref', '            yield from svref2vref(reference)', 'for v in svref2vref(reference):\n                yield v', None),
